@@ -31,6 +31,8 @@ import (
 	gorillaws "github.com/gorilla/websocket"
 	"github.com/vipnode/vipnode/v2/ethnode"
 	"github.com/vipnode/vipnode/v2/pool"
+	"github.com/vipnode/vipnode/v2/pool/payment"
+	"github.com/vipnode/vipnode/v2/pool/status"
 	"github.com/vipnode/vipnode/v2/request"
 )
 
@@ -496,6 +498,19 @@ func semanticCases(tr *Trace, p *poolProc, control *rawWS, ctl *int, rng *rand.R
 		cases = append(cases, sem{"plain", "pool_account", []interface{}{w}})
 	}
 	cases = append(cases, sem{"plain", "pool_status", nil}, sem{"plain", "vipnode_ping", nil})
+	// every name the objects behind the two prefixes could expose (by reflection on this tree's types: whatever
+	// is reachable must cope with no / null parameters; optional pointer parameters arrive as nil)
+	var exposed []string
+	exposed = append(exposed, exportedMethods(&pool.VipnodePool{})...)
+	exposed = append(exposed, exportedMethods(&payment.PaymentService{})...)
+	exposed = append(exposed, exportedMethods(&status.PoolStatus{})...)
+	for _, m := range exposed {
+		for _, pre := range []string{"vipnode_", "pool_"} {
+			for _, ps := range [][]interface{}{nil, {nil}, {nil, nil, nil, nil, nil}} {
+				cases = append(cases, sem{"plain", pre + lowerFirst(m), ps})
+			}
+		}
+	}
 	n := 5000000
 	for _, sc := range cases {
 		n++
